@@ -124,8 +124,9 @@ SPECIAL = [
     ("remote-message-not-utf8-encodable", dict(kind="raise", cls="ValueError", msg=["surrogate", 1])),
     ("argument-not-utf8-encodable", dict(kind="arg-surrogate", depth=1)),
     ("argument-nested-beyond-recursion-limit", dict(kind="arg-deep", depth=2000)),
+    # repaired in /repo (fix eec6df0, "a failing call is reported to the caller even if logging it fails"): regression witness.
     # Broker.callFailed formats the target and the arguments for the local-failure log (InboundDelivery.logFailure, on when the
-    # Tub has logLocalFailures or the Broker has no Tub) BEFORE it sends the error: lib/Callee.v unrenderable_delivery_refuted
+    # Tub has logLocalFailures or the Broker has no Tub) BEFORE it sends the error: lib/Callee.v unrenderable_delivery_answered
     ("local-failure-log-renders-target", dict(kind="raise-badrepr", cls="ValueError", msg=["ascii", 3])),
 ]
 
@@ -136,7 +137,7 @@ SPECIAL_NOTE = {
         "without a Tub here; the same with Tub option logLocalFailures): Broker.callFailed calls InboundDelivery.logFailure, which formats "
         "the target and the arguments with %s BEFORE the error is sent; the exception ends in the delivery chain's log.err: no `error` is "
         "ever sent, the caller's Deferred never fires, the PendingRequest stays in waitingForAnswers and the entry in the callee's "
-        "activeLocalCalls (lib/Callee.v: C10_unrenderable_delivery_refuted)",
+        "activeLocalCalls (repaired by fix eec6df0; lib/Callee.v: C10_unrenderable_delivery_answered)",
 }
 
 
@@ -310,6 +311,8 @@ def judge_faulty(impl, spec, d, opts):
         return None if d["type"] == "builtins.TypeError" else "wrong arity reported as %s" % d["type"]
     if k == "typed-raise":
         spec = dict(spec, cls="MyError", msg=["vocab", spec["i"]])
+        k = "raise"
+    if k == "raise-badrepr":        # the same expectations as for any raising method: the target's repr is none of the caller's business
         k = "raise"
     if k in ("raise", "raise-noargs", "relay"):
         cls = impl.EXC_CLASSES[spec["cls"]]
